@@ -28,6 +28,7 @@ KEYS = ["k1", "k2", "k3", "k4", "", "K1", "k10"]
 # joins grouping keys elsewhere, numeric look-alikes (equality is textual)
 KEYS_RICH = ["C", "C#", "C++", "Mary", "Mary Ann", "a,b", "a", "b,c", "1", "1.0", "01", "k1 ", " k1", "x y", "x"]
 KEYS2 = ["x", "y", "", "c", "b,c", "y z", "#"]
+KEYS_NUM = ["1", "1.0", "01", "1e0", "16", "16.0", "5", "5.00", "0", "0.0", "1E0", "1.00", "2", "2.0", "20", "2e1"]  # texts the JSON writer (used to read the result) prints verbatim
 
 
 def side(r, n, idname, other, keys=KEYS, two=False):
@@ -55,6 +56,12 @@ def build_case(r, tier):
     nr = r.choice([0, 1, 2, 5, 12, 30, 80])
     two = r.chance(0.3)
     keys = KEYS if r.chance(0.6) else r.sample(KEYS_RICH, 6) + ["k1", ""]
+    numkeys = False
+    if r.chance(0.2):
+        # join-field values are compared as text: numbers written differently are different keys (plain formats, where
+        # values are type-inferred from the data)
+        keys = r.sample(KEYS_NUM, 7) + [""]
+        numkeys, two = True, False
     left = side(r, nl, "lid", "lv", keys, two)
     right = side(r, nr, "rid", "rv", keys, two)
     if two and r.chance(0.4):
@@ -118,7 +125,7 @@ def build_case(r, tier):
         right = sort_keep_keyless(right, [rname, r2] if two else [rname])
     elif r.chance(0.2):
         opts.append("-u")
-    rich = keys is not KEYS or two
+    rich = (keys is not KEYS and not numkeys) or two
     lfmt = r.choice(["dkvp", "dkvp", "json", "csvlite"]) if not rich else "json"
     rfmt = "json" if rich else "dkvp"
 
@@ -278,7 +285,7 @@ def evaluate(case, chk):
             vd.add("output-depends-on-schedule", config=cfgs_, first_diff=c04.first_diff(first.stdout, r.stdout))
             break
         try:
-            out = json.loads(r.stdout.decode()) if r.stdout.strip() else []
+            out = json.loads(r.stdout.decode(), parse_float=str, parse_int=str) if r.stdout.strip() else []
         except ValueError:
             vd.add("output-not-json", config=cfgs_)
             break
